@@ -360,6 +360,13 @@ class Interp:
             return False
         raise Unsupported('isinstance with %r' % (cls,))
 
+    def open_file(self, filename, mode='r', **kw):
+        if isinstance(filename, self.models.FileV):
+            if 'r' not in mode and mode != 'r':
+                raise Unsupported('writing to a modelled file')
+            return self.models.OpenFileV(filename, mode)
+        raise Unsupported('open() of a real file')
+
     # ------------------------------------------------------------ attributes
     def getattr(self, v, name, default=UNBOUND):
         try:
@@ -1153,6 +1160,8 @@ class Interp:
             except IndexError:
                 raise_('IndexError', 'list assignment index out of range')
             return
+        if isinstance(obj, dict) and type(idx).__name__ == 'SStr':
+            raise Unsupported('structured-string key in a plain dict')
         if isinstance(obj, dict):
             if isinstance(idx, Sym):
                 for k in list(obj.keys()):
